@@ -65,7 +65,9 @@ def main(argv=None):
     theorems = core.parse_props(prop.PROP_FILE)
     obligations = len(theorems)
     discharged = 0
-    targets = [f"theories/Props/{prop.PROP_FILE}o", "theories/Model/Shell.vo"]
+    tag = getattr(prop, "RUNNER", "")
+    shell_vo = f"theories/Model/Shell{tag}.vo"
+    targets = [f"theories/Props/{prop.PROP_FILE}o", shell_vo]
     checker_cmd = "cd /verif/coq && ./mk.sh " + " ".join(targets) + "  (coq_makefile + make, full .vo) ; coqc Props/%s for Print Assumptions" % prop.PROP_FILE
     runner_ok = False
 
@@ -73,9 +75,9 @@ def main(argv=None):
         case = json.loads(open(args.replay).read())
         with core.Lock():
             core.regenerate(getattr(prop, "TRANSLATORS", []))
-            core.coq_build(["theories/Model/Shell.vo"])
-            runner_ok, _ = core.build_runner()
-        ctx = Ctx(args.tier, seed, core.Model() if runner_ok else None)
+            core.coq_build([shell_vo])
+            runner_ok, _ = core.build_runner(tag)
+        ctx = Ctx(args.tier, seed, core.Model(tag) if runner_ok else None)
         out = prop.replay(ctx, case)
         print(json.dumps(out, indent=1, default=str))
         return 1 if out.get("violates") else 0
@@ -104,15 +106,15 @@ def main(argv=None):
                 m = [l for l in blog.splitlines() if "Error" in l or l.startswith("File ")]
                 broken.append({"kind": "proof", "what": "coq build failed: " + " | ".join(blog.strip().splitlines()[-12:])[-1500:], "files": m[:6]})
                 # the model may still build
-                ok2, _, _ = core.coq_build(["theories/Model/Shell.vo"])
-            runner_ok, rlog = core.build_runner()
+                ok2, _, _ = core.coq_build([shell_vo])
+            runner_ok, rlog = core.build_runner(tag)
             if not runner_ok:
                 broken.append({"kind": "model", "what": "model runner build failed: " + rlog[-800:]})
         else:
             discharged = obligations
-            runner_ok = (core.BUILD / "model_run").exists()
+            runner_ok = (core.BUILD / ("model_run" + tag)).exists()
 
-    ctx = Ctx(args.tier, seed, core.Model() if runner_ok else None)
+    ctx = Ctx(args.tier, seed, core.Model(tag) if runner_ok else None)
     try:
         prop.run(ctx, res)
         if broken and not any(v.found_input for v in res.violations):
